@@ -106,3 +106,10 @@ Proof. split; [exact (proj1 ex_hyps)|exact ex_geom_ok]. Qed.
 Example C06_example : forall q, extend_many Ex.ex_net (new_path Ex.ex_tp) [[1%Z]] = Ok q ->
   prc_at (p_grades q) 5000 = 125 /\ counts_ok q = true.
 Proof. exact ex_elev. Qed.
+
+(* PathTpc::clear(offset_back) (drop the links wholly behind the train; coq/model/PathGeom.v clear): the remaining
+   link points index the remaining grades, curves and catenary sections exactly as before - the ObjState
+   cross-checks survive, for every path, every offset and every float type *)
+Theorem C06_clear_keeps_counts : forall (F : Type) (NO : NumOps F) (p p' : Path (F:=F)) x del,
+  counts_ok p = true -> clear p x = Ok (p', del) -> counts_ok p' = true.
+Proof. intros F NO. exact (@clear_counts_ok F NO). Qed.
